@@ -333,7 +333,15 @@ pub fn check(c: &Case5, st: &mut Stats, tier: Tier) -> CheckResult {
             expect(&(&ia - &ib), &ra.sub(&rb), "c05:sub", &d("-"), display_limit)?;
             expect(&(&ia * &ib), &ra.mul(&rb), "c05:mul", &d("*"), display_limit)?;
             expect(&(-&ia), &ra.neg(), "c05:neg", &|| format!("-({})", ra_dec(a)), display_limit)?;
+            // the named forms of the same operations (value, sign, zero test, low limb; not rendered again)
+            expect(&BigNum::add(&ia, &ib), &ra.add(&rb), "c05:add-fn", &d("BigNum::add"), 0)?;
+            expect(&BigNum::sub(&ia, &ib), &ra.sub(&rb), "c05:sub-fn", &d("BigNum::sub"), 0)?;
+            expect(&BigNum::mul(&ia, &ib), &ra.mul(&rb), "c05:mul-fn", &d("BigNum::mul"), 0)?;
+            expect(&BigNum::neg(&ia), &ra.neg(), "c05:neg-fn", &|| format!("BigNum::neg({})", ra_dec(a)), 0)?;
             {
+                let mut x = ib.clone();
+                x.set_move(ia.clone());
+                expect(&x, &ra, "c05:set_move", &|| "set_move".to_string(), display_limit)?;
                 let mut x = ia.clone();
                 x.minus();
                 expect(&x, &ra.neg(), "c05:minus", &|| format!("minus({})", ra_dec(a)), display_limit)?;
@@ -369,6 +377,8 @@ pub fn check(c: &Case5, st: &mut Stats, tier: Tier) -> CheckResult {
                 let (q, r) = ra.divrem_trunc(&rb);
                 expect(&(&ia / &ib), &q, "c05:div", &d("/"), display_limit)?;
                 expect(&(&ia % &ib), &r, "c05:rem", &d("%"), display_limit)?;
+                expect(&BigNum::div(&ia, &ib), &q, "c05:div-fn", &d("BigNum::div"), 0)?;
+                expect(&BigNum::rem(&ia, &ib), &r, "c05:rem-fn", &d("BigNum::rem"), 0)?;
                 let mut x = ia.clone();
                 x /= &ib;
                 expect(&x, &q, "c05:div_assign", &d("/="), display_limit)?;
